@@ -100,6 +100,28 @@ def check_case(ctx, case):
                  {"tiers": [sorted(t) for t in obs_t], "ref": [sorted(t) for t in ref_t]})
         return
     cw = pairwise.condorcet_winner(cands, mg)
+    # the queries must be pure: a generated sequence of tier / Condorcet queries on the SAME graph object, every
+    # answer compared with the expectation each time it is asked
+    qrnd = ctx.sub_rnd(canon.jhash(case))
+    for qi in range(qrnd.randint(4, 9)):
+        q = qrnd.choice(["tiers", "has", "get", "get", "dict"])
+        ctx.count("graph_queries_in_sequence")
+        if q == "tiers":
+            oq = observe(g.dominating_tiers)
+            good = oq.ok and [set(t) for t in oq.value] == ref_t
+        elif q == "has":
+            oq = observe(g.has_condorcet_winner)
+            good = oq.ok and oq.value == (cw is not None)
+        elif q == "get":
+            oq = observe(g.get_condorcet_winner)
+            good = (oq.ok and oq.value == cw) if cw is not None else ((not oq.ok) and oq.etype == "ValueError")
+        else:
+            good = dict(g.pairwise_dict) == dict(d)
+            oq = None
+        if not good:
+            ctx.fail(f"pairwise graph: query '{q}' gives a wrong answer after earlier queries on the same object (queries are not pure)",
+                     case, {"query_index": qi, "query": q, "got": repr(oq)[:200], "expected_tiers": [sorted(t) for t in ref_t], "cw": cw})
+            return
     hcw = observe(g.has_condorcet_winner)
     if not hcw.ok or hcw.value != (cw is not None) or (len(ref_t[0]) == 1) != (cw is not None):
         ctx.fail("has_condorcet_winner disagrees with 'some candidate beats all others'", case, {"cw": cw, "got": repr(hcw)})
